@@ -143,11 +143,11 @@ theorem convert_ptr (lc : Bool) (g : GoVal) (h : JsonLike (fieldKey lc) g = true
   cases s with
   | ptr s' => exact ⟨v, e, s'⟩
 
-/-- the conversions that panic: unsupported kinds, non-empty maps with non-string keys, a Marshaler
-    method called through a nil pointer -/
+/-- the conversions that panic: unsupported kinds, non-empty maps with non-string keys; a nil pointer to a
+    marshaler type is null like every nil pointer -/
 theorem convert_panics (lc : Bool) (n : Nat) :
     convert lc .unsupported = none ∧ convert lc (.keyedMap (n + 1)) = none ∧
-    convert lc .nilMarshalerPtr = none ∧ convert lc (.slice [.unsupported]) = none := by
+    convert lc .nilMarshalerPtr = some .null ∧ convert lc (.slice [.unsupported]) = none := by
   simp [convert, convM, convK, convList]
 
 /-- a Marshaler converts to what it marshals to; so does a pointer to one -/
